@@ -36,15 +36,27 @@ fn case_json(c: &Case, seq: &[usize], what: &str) -> Value {
 }
 
 fn gen_case(rng: &mut Rng, idx: u64) -> Case {
-    let version = match rng.below(8) {
+    // every threshold the reader tests (47, 48, 80, 90): the value, one below, one above
+    let version = match rng.below(16) {
         0 | 1 | 2 => 42,
-        7 => 122,
+        3 => 122,
+        4 => *rng.pick(&[46u32, 47, 49]),
+        5 => *rng.pick(&[79u32, 80, 81]),
+        6 | 7 => *rng.pick(&[89u32, 90, 90, 91]),
+        8 => *rng.pick(&[93u32, 101]),
         _ => 48,
     };
+    // versions 89..99 also in the letter spelling of gcc 9 (`A90*`, `A93*`)
+    let letter = version >= 89 && version < 100 && rng.chance(1, 2);
     let checksum = rng.next() as u32;
     let nf = rng.range(1, 3) as u32;
     let small = rng.chance(1, 3);
     let mut fns: Vec<GenFn> = (0..nf).map(|i| gen_fn(rng, version, i, small)).collect();
+    // the smallest functions (2, 1, 0 blocks) now and then
+    if rng.chance(1, 8) {
+        let k = rng.below(nf as u64) as u32;
+        fns[k as usize] = gen_tiny_fn(rng, version, k);
+    }
     if nf > 1 && rng.chance(1, 10) {
         // two functions with the same name in the same file: the later one wins in `functions`
         let (n, f) = (fns[0].name.clone(), fns[0].file.clone());
@@ -95,7 +107,10 @@ fn gen_case(rng: &mut Rng, idx: u64) -> Case {
         recs.extend(f.recs());
     }
     let notes = Notes { version, checksum, recs };
-    let gcno = encode_gcno(&notes);
+    let mut gcno = encode_gcno(&notes);
+    if letter {
+        restamp_letter(&mut gcno, version);
+    }
     let npool = rng.below(5) as usize;
     let huge = rng.chance(1, 15);
     let mut pool = Vec::new();
@@ -216,6 +231,9 @@ fn gen_case(rng: &mut Rng, idx: u64) -> Case {
         .iter()
         .map(|d| {
             let mut b = encode_gcda(d, &mut enc_rng);
+            if letter {
+                restamp_letter(&mut b, d.version);
+            }
             if let Some(DRec::Short) = d.recs.last() {
                 // cut inside the last counter
                 let n = b.len();
@@ -505,7 +523,7 @@ fn oracles(rep: &mut Report, c: &Case, rng: &mut Rng) -> Vec<(String, Vec<usize>
                 let entered: u128 = good
                     .iter()
                     .filter_map(|&g| c.flows[g][fi].as_ref())
-                    .map(|fl| fl[0] as u128)
+                    .map(|fl| fl.first().copied().unwrap_or(0) as u128)
                     .sum();
                 let file = String::from_utf8_lossy(&f.file).to_string();
                 let name = String::from_utf8_lossy(&f.name).to_string();
@@ -542,7 +560,7 @@ fn run_inner(rep: &mut Report) {
                 arcs, random spanning tree incl. the virtual exit->entry arc, 1/8 with a broken tree flag, fake flags, lines \
                 shared between blocks and foreign-file lines; every sixth case with function / file names that are not \
                 UTF-8, LINES records naming the file by other ill-formed bytes that decode alike, names colliding after \
-                decoding), gcno versions 402*/408*/B22*, gcda = arc counters of random \
+                decoding; one case in eight with a function of 2, 1 or 0 blocks), gcno versions 402*/408*/B22* and every threshold of the reader with its neighbours (406*/407*/409*, 709*/800*/801*, 809*/900*/901* also spelled A89*/A90*/A91*, A93*, B01*), gcda = arc counters of random \
                 walks (sometimes scaled to 2^58..2^62 or absent per function), sequences of 0-6 gcda: in order, shuffled with \
                 repeats, k copies, followed/preceded by an all-zero gcda, with version/checksum/function-checksum/ident/\
                 length/count mismatches and truncation; gcda files re-stamped byte-wise (other canonical stamp, middle \
@@ -586,8 +604,8 @@ fn run_inner(rep: &mut Report) {
                         let (mut entered, mut first) = (0u128, 0u128);
                         for &i in &good {
                             if let Some(Some(fl)) = c.flows.get(i).map(|v| v[0].clone()) {
-                                entered += fl[entry_idx] as u128;
-                                first += fl[0] as u128;
+                                entered += fl.get(entry_idx).copied().unwrap_or(0) as u128;
+                                first += fl.first().copied().unwrap_or(0) as u128;
                             }
                         }
                         let file = String::from_utf8_lossy(&f.file).to_string();
